@@ -4,6 +4,7 @@
 -/
 import Sbepp.Drive.Common
 import Sbepp.Drive.C15
+import Sbepp.Drive.C02Bswap
 import Sbepp.Drive.C14
 import Sbepp.Drive.C12
 import Sbepp.Drive.C13
@@ -37,6 +38,7 @@ def dispatch (line : String) : String :=
   | cmd :: args =>
     match cmd with
     | "bits" => C15.handle args
+    | "bswap" => C02Bswap.handle args
     | "sarr" => C14.handle args
     | "grp" => C12.handle args
     | "dyn" => C13.handle args
